@@ -1500,6 +1500,19 @@ class Translator:
             cx.scopes[-1].append(f'MUTEX_UNLOCK({m});')
             cx.vars[v['id']] = (m, t)
             return
+        if t.cls == 'map' and not t.ref:
+            # local map (e.g. copy-and-swap): default / copy / move constructed
+            s = self.skip(init) if init else None
+            cx.emit(f'{t.c} {name};'); cx.emit(f'WMAP_INIT_LOCAL(&{name});')
+            if s is not None and s.get('kind') == 'CXXConstructExpr' and len(s.get('inner', [])) == 1:
+                mv = self.is_move_call(s['inner'][0])
+                if mv is not None: cx.emit(f'WMAP_CTOR_MOVE(&{name}, {self.addr_of(mv, cx)});')
+                else: cx.emit(f'WMAP_CTOR_COPY(&{name}, {self.addr_of(s["inner"][0], cx)});')
+            elif s is not None and (s.get('kind') != 'CXXConstructExpr' or s.get('inner')):
+                raise Unsupported(f'map variable {name} construction in {cx.cname}')
+            cx.scopes[-1].append(f'WMAP_DTOR(&{name});')
+            cx.vars[v['id']] = (name, t)
+            return
         if t.cls == 'list' and not t.ref:
             s = self.skip(init) if init else None
             if s is not None and (s.get('kind') != 'CXXConstructExpr' or s.get('inner')):
